@@ -41,7 +41,7 @@ def gen(rng, tier):
     malformed = ["", "m", "m/", "/", "m//", "m/1/", "m//1", "/1", "M/1", "m/1//2", "m/-1", "m/+1", "m/+", "m/'", "m/1''", "m/'1",
                  "m/1.0", "m/1e3", "m/0x10", "m/a", "m/1a", "m/ 1", "m/1 ", " m/1", "m/1\n", "m/١", "m/１", "m/1h", "m/1H",
                  "m/007", "m/+7'", "m/00", "m/0'", "m/-0", "m/1/-2'", "m\\1", "m/1’", "n/1", "m/1/m/2", "m/4294967296'", "m/99999999999999999999",
-                 "m/2147483648'", "m/2147483647'", "m/+2147483648", "m/0000000000000000000000000000001", "44'/60'/0'/0/0", "m/44h/60h"]
+                 "m/2147483648'", "m/2147483647'", "m/+2147483648", "m/m/0", "m/m/44'/60'/0'/0/0", "m/m/m/1'/2", "mm/0", "m/M/0", "m/m", "m/m/", "m/0/m/1", "m/m0", "mm/", "m/ m/0", "m/0000000000000000000000000000001", "44'/60'/0'/0/0", "m/44h/60h"]
     for s in malformed:
         add(s, "malformed")
     for _ in range(n // 3):
